@@ -2,7 +2,7 @@
 import { Reporter, TIER, valueKind, sha } from "./common.mjs";
 import { familyPrograms, forEachCompiledParser, bFamily } from "./cases.mjs";
 import { render, skeleton } from "./spec.mjs";
-import { build, toSrc, universeFor, CYCLIC } from "./universe.mjs";
+import { build, toSrc, universeFor, CYCLIC, sparseSet } from "./universe.mjs";
 import { noUndeclared, member, dcSeen, IN, DC, Prog, isPlain } from "./ref.mjs";
 
 // canonical text of a value (distinguishes kinds; optionally ignores object key order)
@@ -39,6 +39,30 @@ export function canon(v, sortKeys = false, seen = new Set()) {
   } finally {
     seen.delete(v);
   }
+}
+
+// canonical text up to key order, keys whose value is undefined and trailing undefined array items
+function loose(v) {
+  const strip = (x, seen) => {
+    if (x === null || typeof x !== "object" || seen.has(x)) return x;
+    seen.add(x);
+    try {
+      if (Array.isArray(x)) {
+        const a = x.map((e) => strip(e, seen));
+        while (a.length && a[a.length - 1] === undefined) a.pop();
+        return a;
+      }
+      if (x instanceof Map) return new Map([...x].map(([k, e]) => [strip(k, seen), strip(e, seen)]));
+      if (x instanceof Set) return new Set([...x].map((e) => strip(e, seen)));
+      if (!isPlain(x)) return x;
+      const o = {};
+      for (const k of Object.keys(x)) if (x[k] !== undefined) Object.defineProperty(o, k, { value: strip(x[k], seen), enumerable: true, writable: true, configurable: true });
+      return o;
+    } finally {
+      seen.delete(x);
+    }
+  };
+  return canon(strip(v, new Set()), true);
 }
 
 // is d a projection of x? returns null or a reason
@@ -200,6 +224,17 @@ export function checkParser({ rep, stats, parser, parserName, spec, refProg, vx,
       const nu = noUndeclared(refProg, spec, d, 64, { unionMerge: true });
       if (nu !== IN && nu !== DC) fail(`parsed data ${canon(d).slice(0, 80)} carries a key the type does not declare [${oname}]`, "declared-only");
     }
+    // completeness: an input that is a member and carries no undeclared key at any position (reference, no debatable
+    // branch involved) has nothing to project away - the parsed data must be the input itself, up to key order,
+    // undefined-valued keys and padded tuple positions
+    if (spec && !vx.cyclic && !vx.sparse) {
+      dcSeen.count = 0;
+      const exact = member(refProg, spec, input) === IN && noUndeclared(refProg, spec, input, 64) === IN && dcSeen.count === 0;
+      if (exact) {
+        stats.exactInputs = (stats.exactInputs ?? 0) + 1;
+        if (loose(d) !== loose(input)) fail(`parsed data lost a declared part of an input that has no undeclared key [${oname}]: ${canon(d, true).slice(0, 70)} from ${canon(input, true).slice(0, 70)}`, "complete");
+      }
+    }
     // idempotence
     try {
       const d2 = parser.parse(d, opts);
@@ -234,7 +269,7 @@ export async function run() {
     const skel = skeleton(spec0, refProg);
     const typeText = render(spec0);
     let acc = "";
-    for (const vx of [...U, ...CYCLIC]) {
+    for (const vx of [...U, ...CYCLIC, ...sparseSet([...U].reverse(), 60)]) {
       checkParser({ rep, stats, parser, parserName: name, spec, refProg, vx, typeText, skel, program: text });
     }
     // outcome fingerprint: accept vector in strict mode over the first 60 values
@@ -263,7 +298,7 @@ export async function run() {
   for (const { parser, spec, src } of bf.items) {
     stats.bParsers++;
     const U = universeFor(emptyProg, spec, { mutantCap: 150 });
-    for (const vx of [...U, ...CYCLIC]) checkParser({ rep, stats, parser, parserName: parser.name, spec, refProg: emptyProg, vx, typeText: src, skel: "b:" + skeleton(spec), program: "// " + src });
+    for (const vx of [...U, ...CYCLIC, ...sparseSet([...U].reverse(), 40)]) checkParser({ rep, stats, parser, parserName: parser.name, spec, refProg: emptyProg, vx, typeText: src, skel: "b:" + skeleton(spec), program: "// " + src });
   }
   if (samples.length < 1) samples.push({ note: "no sample slot hit" });
   return rep.finish({
@@ -271,11 +306,12 @@ export async function run() {
     coverage: {
       evaluations: stats.evaluations,
       distinct_nontrivial: outcomes.size,
-      rule: "every validator of families F1-F4 (C01's program set) and every b.*/buntyped.Union composition to depth " + (TIER === "thorough" ? 2 : 1) + " × U(T) × 4 ParseOptions combinations; per case the monitors: no-throw, agree (validate/safeParse/parse), revalidate, projection, declared-only, idempotent, key-order, no-mutation (snapshot and deep-frozen pass). distinct_nontrivial = distinct (type skeleton, strict accept vector) with both verdicts present",
+      rule: "every validator of families F1-F4 (C01's program set) and every b.*/buntyped.Union composition to depth " + (TIER === "thorough" ? 2 : 1) + " × U(T) × 4 ParseOptions combinations; per case the monitors: no-throw, agree (validate/safeParse/parse), revalidate, projection, declared-only, complete (an exact member is returned whole), idempotent, key-order, no-mutation (snapshot and deep-frozen pass). distinct_nontrivial = distinct (type skeleton, strict accept vector) with both verdicts present",
       samples,
       exhaustive: TIER === "thorough",
       parsers: stats.parsers,
       b_parsers: stats.bParsers,
+      exact_inputs_checked_for_completeness: stats.exactInputs ?? 0,
       options: OPTIONS.map((o) => o[1]),
     },
     assumptions: ["values with getters/proxies/symbol keys are outside the alphabet", "declared-only uses the reference's declaredKeys (ref.mjs noUndeclared)"],
